@@ -145,6 +145,37 @@ pub fn emit(dir: &Path) {
       db.rels.insert("edge".into(), vec![vec![i(1), i(2)], vec![i(2), i(3)]]);
       write_hist(dir, "KF-7.json", "C13", "KF-7", Program { rels, rules, macros: vec![] }, Kind::AscentPar, db, "[\"Run\",\"Run\"]");
    }
+   // KF-8: macro-local variable used in a condition attached to a clause of the macro body; call-site variable of the
+   // same name in scope
+   {
+      let rels = vec![
+         rel("foo", vec![Ty::I32], true),
+         rel("reach", vec![Ty::I32, Ty::I32], true),
+         rel("out", vec![Ty::I32], false),
+      ];
+      let mac = MacroDef {
+         name: "mq".into(),
+         params: vec![MacroParam { name: "p0".into(), is_ident: true, ty: Ty::I32, role: "soft".into() }],
+         body: vec![BodyItem::Clause {
+            rel: "reach".into(),
+            args: vec![av("$p0"), av("x")],
+            conds: vec![Cond::If(Expr::Cmp(CmpOp::Le, Box::new(Expr::Int(4, Ty::I32)), Box::new(v("x"))))],
+         }],
+         head: vec![],
+         is_head: false,
+      };
+      let rules = vec![Rule {
+         heads: vec![hd("out", vec![v("a")])],
+         body: vec![
+            cl("foo", vec![av("x")]),
+            BodyItem::MacroCall { name: "mq".into(), args: vec![MacroArg { is_ident: true, ident: "a".into(), expr: None }] },
+         ],
+      }];
+      let mut db = Db::default();
+      db.rels.insert("foo".into(), vec![vec![i(1)]]);
+      db.rels.insert("reach".into(), vec![vec![i(7), i(9)], vec![i(8), i(2)]]);
+      write(dir, "KF-8.json", "C08", "KF-8", Program { rels, rules, macros: vec![mac] }, Kind::Ascent, vec![], db);
+   }
 }
 
 fn write_hist(dir: &Path, file: &str, prop: &str, base: &str, prog: Program, kind: Kind, input: Db, ops: &str) {
